@@ -436,5 +436,288 @@ theorem commitMS_core {S : Tree → Prop} {names : List Name} (hs : Name → Lis
     simp only [this]
     rfl
 
+
+theorem GoodMS.version {S : Tree → Prop} {names : List Name} {hs : Name → List (Option Tree)} {k : Nat} {s : MStore}
+    (g : GoodMS H S names hs k s) : s.lastCommitID.version = k := by
+  rw [g.lcid]
+  by_cases hk : k = 0
+  · simp [hk]
+  · simp only [hk, if_false]
+    obtain ⟨ci, hci, hv, _⟩ := g.recs.cinfo k (by omega) (by omega)
+    simp [hci, CInfo.commitID, hv]
+
+/-- `Commit` of a legal block on a good multistore. -/
+theorem commitMS_good (hH : HashOK H) {S : Tree → Prop} (hi : Inj H S) {names : List Name} {hs : Name → List (Option Tree)}
+    {k : Nat} {s : MStore} (g : GoodMS H S names hs k s) (nx : Name → Option Tree) (order : List Name)
+    (ho : IsOrder names order) (hstep : ∀ n ∈ names, StepOK S k (lastOf (hs n)) (nx n)) :
+    ∃ (s' : MStore) (dbOf : Name → NDB),
+      commitMS H order (s.applyBlock (fullBlock names nx)) =
+        some (s', ⟨(k : Int) + 1, (nextCI (H := H) order nx k).hash H⟩,
+              order.map (fun n => DWrite.store n (dbOf n)) ++ [.final ((k : Int) + 1) (nextCI (H := H) order nx k)]) ∧
+      GoodMS H S names (fun n => hs n ++ [nx n]) (k + 1) s' ∧
+      (∀ n ∈ names, GoodDisk H S (hs n ++ [nx n]) (dbOf n) ∧ s'.disk.storeDB n = dbOf n) ∧
+      s'.cinfos = aput ((k : Int) + 1) (nextCI (H := H) order nx k) s.cinfos ∧ s'.latest = some ((k : Int) + 1) := by
+  apply commitMS_core hs nx k s order ho g.nodup g.keys g.version g.recs
+  intro n hn
+  obtain ⟨t, ht, gt, hok, hl⟩ := g.tree n hn
+  have hs' : StepOK S (hs n).length (t.setRoot (nx n)).lastSaved (t.setRoot (nx n)).root := by
+    simp only [MTree.setRoot]; rw [gt.lastSaved, hl]; exact hstep n hn
+  obtain ⟨t', hsv, gt', _⟩ := saveVersion_good hH hi (gt.setRoot (nx n)) hok hs'
+  refine ⟨t, t', ht, ?_, by simpa [MTree.setRoot] using gt', ?_, hl⟩
+  · rw [hl] at hsv; simpa [MTree.setRoot] using hsv
+  · have := hok.append (hl ▸ hstep n hn : StepOK S (hs n).length (lastOf (hs n)) (nx n))
+    exact this
+
+/-- The commit hash does not depend on the order in which the substores were committed. -/
+theorem CInfo.hash_perm (v : Int) {i₁ i₂ : List SInfo} (hp : i₁.Perm i₂) (hn : (i₁.map (·.name)).Nodup) :
+    (CInfo.mk v i₁).hash H = (CInfo.mk v i₂).hash H := by
+  unfold CInfo.hash simpleHashFromMap
+  simp only
+  rw [toSortedMap_perm ((hp.map _).map _)]
+  simpa [List.map_map, Function.comp_def] using hn
+
+theorem nextCI_hash_order {names order order' : List Name} (ho : IsOrder names order) (ho' : IsOrder names order')
+    (nx : Name → Option Tree) (k : Nat) : (nextCI (H := H) order nx k).hash H = (nextCI (H := H) order' nx k).hash H := by
+  unfold nextCI
+  apply CInfo.hash_perm
+  · apply List.Perm.map
+    exact (List.perm_ext_iff_of_nodup ho.1 ho'.1).mpr (fun a => by rw [ho.2, ho'.2])
+  · simpa [List.map_map, Function.comp_def] using ho.1
+
+/-! ### Crash during `Commit` -/
+
+/-- The substore histories on disk after the first `j` store batches of the commit producing `k+1`. -/
+def crashHist (hs : Name → List (Option Tree)) (nx : Name → Option Tree) (order : List Name) (j : Nat) (n : Name) :
+    List (Option Tree) :=
+  if (order.take j).contains n then hs n ++ [nx n] else hs n
+
+theorem crashDisk_stores (d : Disk) (order : List Name) (dbOf : Name → NDB) (fin : DWrite) (j : Nat) (hj : j ≤ order.length) :
+    crashDisk d (order.map (fun n => DWrite.store n (dbOf n)) ++ [fin]) j =
+      { d with stores := d.stores.map fun e => if (order.take j).contains e.1 then (e.1, dbOf e.1) else e } := by
+  unfold crashDisk
+  rw [List.take_append_of_le_length (by simpa using hj), ← List.map_take]
+  exact crash_stores dbOf (order.take j) d
+
+theorem crashDisk_full (d : Disk) (order : List Name) (dbOf : Name → NDB) (v : Int) (ci : CInfo) :
+    crashDisk d (order.map (fun n => DWrite.store n (dbOf n)) ++ [.final v ci]) (order.length + 1) =
+      { stores := d.stores.map fun e => if order.contains e.1 then (e.1, dbOf e.1) else e,
+        cinfos := aput v ci d.cinfos, latest := some v } := by
+  unfold crashDisk
+  rw [List.take_of_length_le (by simp), List.foldl_append, crash_stores dbOf order d]
+  rfl
+
+/-- **Every crash point.**  Commit of a legal block on a good multistore at version `k`: for every
+prefix of the atomic writes the disk is a good multistore disk — still at version `k` while only
+substore batches have been written (the substores already written hold one more version), at version
+`k+1` once the final batch is in. -/
+theorem crash_disks (hH : HashOK H) {S : Tree → Prop} (hi : Inj H S) {names : List Name} {hs : Name → List (Option Tree)}
+    {k : Nat} {s : MStore} (g : GoodMS H S names hs k s) (nx : Name → Option Tree) (order : List Name)
+    (ho : IsOrder names order) (hstep : ∀ n ∈ names, StepOK S k (lastOf (hs n)) (nx n)) :
+    ∃ (s' : MStore) (ws : List DWrite),
+      commitMS H order (s.applyBlock (fullBlock names nx)) = some (s', ⟨(k : Int) + 1, (nextCI (H := H) order nx k).hash H⟩, ws) ∧
+      ws.length = order.length + 1 ∧
+      GoodMS H S names (fun n => hs n ++ [nx n]) (k + 1) s' ∧
+      (∀ j, j ≤ order.length → GoodDiskMS H S names (crashHist hs nx order j) k (crashDisk s.disk ws j)) ∧
+      GoodDiskMS H S names (fun n => hs n ++ [nx n]) (k + 1) (crashDisk s.disk ws (order.length + 1)) ∧
+      aget ((k : Int) + 1) (crashDisk s.disk ws (order.length + 1)).cinfos = some (nextCI (H := H) order nx k) := by
+  obtain ⟨s', dbOf, hc, g', hdb, hci, hlat⟩ := commitMS_good hH hi g nx order ho hstep
+  have gd := g.disk
+  refine ⟨s', _, hc, by simp, g', ?_, ?_, ?_⟩
+  · intro j hj
+    rw [crashDisk_stores s.disk order dbOf _ j hj]
+    refine ⟨g.nodup, ?_, ?_, gd.recs⟩
+    · simp only [List.map_map]
+      rw [← gd.keys]
+      apply List.map_congr_left
+      intro e _; simp only [Function.comp]; split <;> rfl
+    · intro n hn
+      have hkn : n ∈ s.disk.stores.map (·.1) := by rw [gd.keys]; exact hn
+      rw [Disk.storeDB_upd s.disk (fun m => (order.take j).contains m) dbOf n hkn]
+      obtain ⟨g0, hok0, hl0⟩ := gd.store n hn
+      obtain ⟨t, ht, gt, hok, hl⟩ := g.tree n hn
+      unfold crashHist
+      by_cases hc : (order.take j).contains n = true
+      · simp only [hc, if_true]
+        exact ⟨(hdb n hn).1, hok.append (hl ▸ hstep n hn : StepOK S (hs n).length (lastOf (hs n)) (nx n)), by simp; omega⟩
+      · simp only [hc, Bool.false_eq_true, if_false]
+        exact ⟨g0, hok0, hl0⟩
+  · rw [crashDisk_full]
+    have gd' := g'.disk
+    refine ⟨g.nodup, ?_, ?_, ?_⟩
+    · simp only [List.map_map]
+      rw [← gd.keys]
+      apply List.map_congr_left
+      intro e _; simp only [Function.comp]; split <;> rfl
+    · intro n hn
+      have hkn : n ∈ s.disk.stores.map (·.1) := by rw [gd.keys]; exact hn
+      have : (({ stores := s.disk.stores.map fun e => if order.contains e.1 then (e.1, dbOf e.1) else e,
+                 cinfos := aput ((k : Int) + 1) (nextCI (H := H) order nx k) s.disk.cinfos, latest := some ((k : Int) + 1) } : Disk).storeDB n) = dbOf n := by
+        have h1 := Disk.storeDB_upd s.disk (fun m => order.contains m) dbOf n hkn
+        have hmem : order.contains n = true := List.contains_iff_mem.mpr ((ho.2 n).mpr hn)
+        simp only [hmem, if_true] at h1
+        exact h1
+      rw [this]
+      obtain ⟨gdn, hokn, hln⟩ := gd'.store n hn
+      rw [(hdb n hn).2] at gdn
+      exact ⟨gdn, hokn, hln⟩
+    · have := g'.recs
+      rw [hci, hlat] at this
+      exact this
+  · rw [crashDisk_full]
+    simp only
+    exact aget_aput_self _ _ _
+
+
+theorem histAt_last (hist : List (Option Tree)) (hne : hist ≠ []) : histAt hist hist.length = some (lastOf hist) := by
+  have hl1 : 1 ≤ (hist.length : Int) := by
+    cases hist with
+    | nil => exact absurd rfl hne
+    | cons a l => simp; omega
+  unfold histAt lastOf
+  simp only [hl1, if_true]
+  have : ((hist.length : Int) - 1).toNat = hist.length - 1 := by omega
+  rw [this, List.getLast?_eq_getElem?]
+  cases h : hist[hist.length - 1]? with
+  | none =>
+    have := List.getElem?_eq_none_iff.mp h
+    cases hist with
+    | nil => exact absurd rfl hne
+    | cons a l => simp at this; omega
+  | some x => rfl
+
+theorem crashHist_at (hs : Name → List (Option Tree)) (nx : Name → Option Tree) (order : List Name) (j : Nat) (n : Name)
+    (k : Nat) (hk : 1 ≤ k) (hl : (hs n).length = k) :
+    (histAt (crashHist hs nx order j n) k).getD none = lastOf (hs n) := by
+  have hne : hs n ≠ [] := by intro e; rw [e] at hl; simp at hl; omega
+  unfold crashHist
+  split
+  · rw [histAt_append]
+    have : ¬ ((k : Int) = (hs n).length + 1) := by omega
+    simp only [this, if_false]
+    rw [← hl, histAt_last _ hne]; rfl
+  · rw [← hl, histAt_last _ hne]; rfl
+
+/-- **Recovery** from any crash point before the final batch (`k ≥ 1`): `LoadLatestVersion` on the
+crashed disk gives the last commit id and every substore on version `k` with the tree committed at `k`. -/
+theorem recover_state (hH : HashOK H) {S : Tree → Prop} {names : List Name} {hs : Name → List (Option Tree)}
+    (nx : Name → Option Tree) (order : List Name) (j : Nat) {k : Nat} {d : Disk}
+    (gd : GoodDiskMS H S names (crashHist hs nx order j) k d) (hk : 1 ≤ k) (hlen : ∀ n ∈ names, (hs n).length = k) :
+    ∃ ci, aget (k : Int) d.cinfos = some ci ∧ ci.version = k ∧
+      openMS H d names = some ⟨ci.commitID H,
+        names.map (fun n => (n, recovered (d.storeDB n) k (lastOf (hs n)))), d.cinfos, d.latest⟩ := by
+  obtain ⟨ci, hci, ho⟩ := openMS_good hH gd hk
+  obtain ⟨ci', hci', hv, _⟩ := gd.recs.cinfo k (by omega) (by omega)
+  rw [hci] at hci'; cases hci'
+  refine ⟨ci, hci, hv, ?_⟩
+  rw [ho]
+  congr 2
+  apply List.map_congr_left
+  intro n hn
+  rw [crashHist_at hs nx order j n k hk (hlen n hn)]
+
+/-- **Re-execution** after such a recovery, with any iteration order: the commit succeeds, reports
+version `k+1` with the hash of the uninterrupted commit, and the store is again a good multistore. -/
+theorem reexecute (hH : HashOK H) {S : Tree → Prop} (hi : Inj H S) {names : List Name} {hs : Name → List (Option Tree)}
+    (nx : Name → Option Tree) (order order' : List Name) (ho : IsOrder names order) (ho' : IsOrder names order') (j : Nat)
+    {k : Nat} {d : Disk} (gd : GoodDiskMS H S names (crashHist hs nx order j) k d) (hk : 1 ≤ k)
+    (hlen : ∀ n ∈ names, (hs n).length = k) (hok : ∀ n ∈ names, HistOK S (hs n))
+    (hstep : ∀ n ∈ names, StepOK S k (lastOf (hs n)) (nx n)) (ci : CInfo) (hci : ci.version = k) :
+    ∃ s'' ws, commitMS H order' ((⟨ci.commitID H, names.map (fun n => (n, recovered (d.storeDB n) k (lastOf (hs n)))), d.cinfos, d.latest⟩ : MStore).applyBlock (fullBlock names nx)) =
+        some (s'', ⟨(k : Int) + 1, (nextCI (H := H) order nx k).hash H⟩, ws) ∧
+      GoodMS H S names (fun n => hs n ++ [nx n]) (k + 1) s'' := by
+  have hkeys : (names.map (fun n => (n, recovered (d.storeDB n) k (lastOf (hs n))))).map (·.1) = names := by
+    simp [List.map_map, Function.comp_def]
+  obtain ⟨s'', dbOf, hc, g'', _⟩ := commitMS_core (H := H) (S := S) hs nx k
+    ⟨ci.commitID H, names.map (fun n => (n, recovered (d.storeDB n) k (lastOf (hs n)))), d.cinfos, d.latest⟩ order' ho' gd.nodup hkeys
+    (by simp [CInfo.commitID, hci]) gd.recs (by
+      intro n hn
+      have hag : aget n (names.map (fun n => (n, recovered (d.storeDB n) k (lastOf (hs n))))) = some (recovered (d.storeDB n) k (lastOf (hs n))) := by
+        rw [aget_map_names (fun n => recovered (d.storeDB n) k (lastOf (hs n))) names n, if_pos hn]
+      have hl := hlen n hn
+      have hne : hs n ≠ [] := by intro e; rw [e] at hl; simp at hl; omega
+      have hstep' : StepOK S (hs n).length (lastOf (hs n)) (nx n) := hl ▸ hstep n hn
+      obtain ⟨gdn, hokn, _⟩ := gd.store n hn
+      unfold crashHist at gdn hokn
+      by_cases hc : (order.take j).contains n = true
+      · simp only [hc, if_true] at gdn hokn
+        obtain ⟨r, hr, hlast, hload, t', hsv, _, _, gt'⟩ := recover_after hH hi (nx n) gdn hokn hne
+        subst hlast
+        rw [hl] at hsv
+        exact ⟨_, t', hag, hsv, gt', hokn, hl⟩
+      · simp only [hc, Bool.false_eq_true, if_false] at gdn hokn
+        obtain ⟨r, hr, hload, hlast, gt⟩ := recover_before hH hi gdn hokn hne
+        subst hlast
+        have hs' : StepOK S (hs n).length ((recovered (d.storeDB n) (hs n).length (lastOf (hs n))).setRoot (nx n)).lastSaved
+            ((recovered (d.storeDB n) (hs n).length (lastOf (hs n))).setRoot (nx n)).root := by
+          simp only [recovered, MTree.setRoot]; exact hstep'
+        obtain ⟨t', hsv, gt', _⟩ := saveVersion_good hH hi (gt.setRoot (nx n)) hokn hs'
+        rw [hl] at hsv gt'
+        refine ⟨_, t', hag, by simpa [MTree.setRoot] using hsv, by simpa [MTree.setRoot] using gt', hokn.append hstep', hl⟩)
+  rw [nextCI_hash_order ho' ho nx k] at hc
+  exact ⟨s'', _, hc, g''⟩
+
+
+/-! ### whole multistore histories -/
+
+/-- A legal multistore history from version `k`: every block gives every substore a legal next tree,
+and is committed in some iteration order. -/
+def GoodBlocks (S : Tree → Prop) (names : List Name) : (Name → List (Option Tree)) → Nat → List (List Name × (Name → Option Tree)) → Prop
+  | _, _, [] => True
+  | hs, k, (order, nx) :: rest =>
+    IsOrder names order ∧ (∀ n ∈ names, StepOK S k (lastOf (hs n)) (nx n)) ∧
+      GoodBlocks S names (fun n => hs n ++ [nx n]) (k + 1) rest
+
+/-- The substore histories after a list of blocks. -/
+def histsAfter : (Name → List (Option Tree)) → List (List Name × (Name → Option Tree)) → Name → List (Option Tree)
+  | hs, [] => hs
+  | hs, (_, nx) :: rest => histsAfter (fun n => hs n ++ [nx n]) rest
+
+def freshDisk (names : List Name) : Disk := { stores := names.map fun n => (n, {}) }
+
+theorem freshDisk_good (S : Tree → Prop) (names : List Name) (hnd : names.Nodup) :
+    GoodDiskMS H S names (fun _ => []) 0 (freshDisk names) := by
+  refine ⟨hnd, by simp [freshDisk, List.map_map, Function.comp_def], ?_, ⟨?_, ?_, rfl⟩⟩
+  · intro n hn
+    have : (freshDisk names).storeDB n = {} := by
+      unfold Disk.storeDB freshDisk
+      simp only
+      rw [aget_map_names (fun _ => ({} : NDB)) names n, if_pos hn]; rfl
+    rw [this]
+    exact ⟨(goodTree_fresh (H := H) S).disk, histOK_nil S, by simp⟩
+  · intro v h1 h2; omega
+  · intro v _; simp [freshDisk]
+
+/-- `LoadLatestVersion` on a fresh disk is a good multistore at version 0. -/
+theorem openMS_fresh_good (S : Tree → Prop) (names : List Name) (hnd : names.Nodup) :
+    ∃ s0, openMS H (freshDisk names) names = some s0 ∧ GoodMS H S names (fun _ => []) 0 s0 := by
+  have gd := freshDisk_good (H := H) S names hnd
+  refine ⟨_, openMS_fresh gd, hnd, by simp [List.map_map, Function.comp_def], ?_, gd.recs, by simp⟩
+  intro n hn
+  have hdb : (freshDisk names).storeDB n = {} := by
+    unfold Disk.storeDB freshDisk
+    simp only
+    rw [aget_map_names (fun _ => ({} : NDB)) names n, if_pos hn]; rfl
+  refine ⟨MTree.new {}, ?_, goodTree_fresh S, histOK_nil S, rfl⟩
+  rw [aget_map_names (fun n => MTree.new ((freshDisk names).storeDB n)) names n, if_pos hn, hdb]
+
+theorem runMS_good (hH : HashOK H) {S : Tree → Prop} (hi : Inj H S) {names : List Name} :
+    ∀ (blocks : List (List Name × (Name → Option Tree))) (hs : Name → List (Option Tree)) (k : Nat) (s : MStore),
+      GoodMS H S names hs k s → GoodBlocks S names hs k blocks →
+      ∃ s' ids, runMS H s (blocks.map fun b => (b.1, fullBlock names b.2)) = some (s', ids) ∧
+        GoodMS H S names (histsAfter hs blocks) (k + blocks.length) s' ∧ ids.length = blocks.length := by
+  intro blocks
+  induction blocks with
+  | nil => intro hs k s g _; exact ⟨s, [], rfl, by simpa [histsAfter] using g, rfl⟩
+  | cons b rest ih =>
+    intro hs k s g hb
+    obtain ⟨order, nx⟩ := b
+    obtain ⟨ho, hstep, hrest⟩ := hb
+    obtain ⟨s', dbOf, hc, g', _⟩ := commitMS_good hH hi g nx order ho hstep
+    obtain ⟨s'', ids, hrun, g'', hl⟩ := ih _ _ s' g' hrest
+    refine ⟨s'', ⟨(k : Int) + 1, (nextCI (H := H) order nx k).hash H⟩ :: ids, ?_, ?_, by simp [hl]⟩
+    · simp only [List.map_cons, runMS, hc, hrun, Option.map_some]
+    · have : k + 1 + rest.length = k + (rest.length + 1) := by omega
+      simpa [histsAfter, this] using g''
+
 end ms
 end NodeDB
